@@ -1031,6 +1031,83 @@ pub fn run(ctx: &mut Ctx) {
         }
         ctx.nontrivial(mix(&[43, idx as u64]));
     });
+    // a setting is changed while a generator for the same utterance is still alive: the next
+    // synthesis uses the new setting in full (equal to a fresh engine given the final settings),
+    // and the live generator finishes with the settings it was opened under
+    let n = ctx.n(48, 1000);
+    ctx.run_cases("setting-changed-under-a-live-generator", n, false, |ctx, rng, idx| {
+        let labels = env.corpus.random_utterance(rng, 2, 6);
+        let mut e = env.load_bundled();
+        let mut fresh = env.load_bundled();
+        if idx % 3 == 0 {
+            let w0 = rng.uniform(0.2, 1.8);
+            e.condition.set_gv_weight(0, w0);
+            fresh.condition.set_gv_weight(0, w0);
+        }
+        let Ok(before) = e.synthesize(labels.clone()) else { return };
+        let Ok(mut g) = e.generator(labels.clone()) else { return };
+        let fp = g.fperiod();
+        let mut head = vec![0.0; fp];
+        let steps = rng.range(0, 3);
+        let mut pulled: Vec<f64> = Vec::new();
+        for _ in 0..steps {
+            if g.generate_step(&mut head) > 0 {
+                pulled.extend_from_slice(&head);
+            }
+        }
+        let what = match idx % 6 {
+            0 | 3 => {
+                let w = rng.uniform(0.1, 1.9);
+                e.condition.set_gv_weight(0, w);
+                fresh.condition.set_gv_weight(0, w);
+                format!("set_gv_weight(0, {})", w)
+            }
+            1 => {
+                let w = rng.uniform(0.1, 1.9);
+                e.condition.set_gv_weight(1, w);
+                fresh.condition.set_gv_weight(1, w);
+                format!("set_gv_weight(1, {})", w)
+            }
+            2 => {
+                let t = rng.uniform(0.2, 0.9);
+                e.condition.set_msd_threshold(1, t);
+                fresh.condition.set_msd_threshold(1, t);
+                format!("set_msd_threshold(1, {})", t)
+            }
+            4 => {
+                let b = rng.uniform(0.05, 0.5);
+                e.condition.set_beta(b);
+                fresh.condition.set_beta(b);
+                format!("set_beta({})", b)
+            }
+            _ => {
+                let h = rng.uniform(-6.0, 6.0);
+                e.condition.set_additional_half_tone(h);
+                fresh.condition.set_additional_half_tone(h);
+                format!("set_additional_half_tone({})", h)
+            }
+        };
+        let (Ok(a), Ok(b)) = (if idx % 2 == 0 { e.synthesize(labels.clone()) } else { e.clone().synthesize(labels.clone()) }, fresh.synthesize(labels.clone())) else {
+            ctx.violation("synthesize-err", J::from("setting-changed-under-a-live-generator"));
+            return;
+        };
+        ctx.count("syntheses_after_a_setting_changed_under_a_live_generator", 1.0);
+        if !bits_eq(&a, &b) {
+            ctx.violation(
+                "output-differs-from-fresh-engine",
+                J::obj().set("what", "a generator for the same utterance was alive while the setting was changed").set("setter", what.clone()).set("frames_pulled_before", steps).set("len", a.len()).set("reference_len", b.len()),
+            );
+            return;
+        }
+        pulled.extend(g.generate_all());
+        if !bits_eq(&pulled, &before) {
+            ctx.violation(
+                "live-generator-affected-by-a-later-setter",
+                J::obj().set("setter", what).set("frames_pulled_before", steps).set("len", pulled.len()).set("reference_len", before.len()),
+            );
+        }
+        ctx.nontrivial(mix(&[47, idx as u64]));
+    });
     // the tiny-voice thread workload also runs natively (and under TSan)
     ctx.run_cases("tiny-threads", 4, true, |ctx, _rng, idx| {
         miri_threads(ctx, idx);
